@@ -340,3 +340,11 @@ package types
 //@   loop 0 invariant total == itPos[it] && skipCount == min(itPos[it], pagination.Skip) && i == itPos[it] - skipCount
 //@   loop 0 invariant len(res) == min(i, pagination.Size) && pagination.Skip >= 0 && pagination.Size >= 0
 //@   loop 0 invariant forall j int :: 0 <= j && j < len(res) ==> ref(res[j]) == txOf(itVal[it][pagination.Skip + j])
+
+// ---- C31: the previous-block hash of a height that is not the current one can only come from
+// the context cache or the block store (no shortcut through the current header).
+//@ func (Context).GetPrevBlockHash
+//@   props C31
+//@   modifies all
+//@   ensures [no-shortcut] err == nil ==> height == ctxHeight(iface(c)) || cacheHit || storeHit
+//@   ensures [current] height == ctxHeight(iface(c)) ==> err == nil
